@@ -237,3 +237,154 @@ contract('Batching.grid_search',
                         modifies=['results', 'store:dict[str,any]', 'new:list[any]']),
                 2: dict(invariant=[(search_select_inv, ['C16'])], index='i', modifies=['store:dict[str,any]'])},
          modes=['real'], native=False, props=['C16'])
+from pyvc.specs import ghost   # noqa: E402
+from contracts.core import model_exec_requires   # noqa: E402
+
+# ------------------------------------------------------------------------------------------------ C15 batch runs
+REG.ghosts['n_runs'] = 'int'            # executions started by batch_run so far (ghost execution log)
+REG.ghosts['n_built'] = 'int'           # models built inside one execution
+REG.ghosts['run_arg'] = 'map[any]'      # log: argument dictionary of execution k
+REG.ghosts['run_res'] = 'map[any]'      # log: result of execution k
+
+
+def build_model_post(model_cls, kwargs, result):
+    return not is_none(result)
+
+
+contract('Batching._build_model_from_kwargs', params={'model_cls': 'any', 'kwargs': 'any'}, returns='ref:Model',
+         ensures={'C15': [build_model_post]}, kind='abstract', native=False, props=['C15'],
+         assumes=['model_cls(**kwargs) (user code) returns a well-formed Model built from kwargs only'])
+
+
+def site_build(model_cls, kwargs, collectors, max_timesteps, arg):
+    """Exactly one fresh model per execution, built from the run's own keyword arguments only."""
+    return ghost().n_built == 0 and same(arg, model_cls)
+
+
+def site_step(model_cls, kwargs, collectors, max_timesteps, model):
+    """C15: no execution advances past the step limit or past its own completion."""
+    return running(model) and model.systems.timestep < max_timesteps
+
+
+def run_batch_inv(model_cls, kwargs, collectors, max_timesteps, model):
+    return ghost().n_built == 1
+
+
+def run_batch_post_none(model_cls, kwargs, collectors, max_timesteps, result, model):
+    return is_none(result) and ghost().n_built == 1
+
+
+contract('Batching._run_model_for_batch', variant='nocollector',
+         params={'model_cls': 'any', 'kwargs': 'any', 'collectors': 'none', 'max_timesteps': 'int'},
+         ensures={'C15': [run_batch_post_none]},
+         modifies=['ghost:n_built', 'store:dict[str,ref:System]', 'store:list[ref:System]', 'fieldall:timestep',
+                   'new:list[ref:System]'] + ['fieldall:_status', 'store:dict[str,ref:Agent]',
+                                              'store:dict[cls,ref:Component]', 'store:dict[cls,list[ref:Component]]',
+                                              'store:list[ref:Component]', 'fieldall:tag', 'ghost:runs', 'ghost:last'],
+         locals={'model': 'ref:Model'},
+         ghost_init='batch_init',
+         sites={0: dict(**{'assert': [site_build]}, effect='model_built'), 2: dict(**{'assert': [site_step]})},
+         loops={0: dict(invariant=[(run_batch_inv, ['C15'])], modifies=[
+             'fieldall:timestep', 'new:list[ref:System]', 'fieldall:_status', 'store:dict[str,ref:Agent]',
+             'store:dict[cls,ref:Component]', 'store:dict[cls,list[ref:Component]]', 'store:list[ref:Component]',
+             'fieldall:tag', 'ghost:runs', 'ghost:last'])},
+         assume_callee_pre=['Core.Model.execute'], native=False, props=['C15'])
+
+
+def run_batch_post_str(model_cls, kwargs, collectors, max_timesteps, result, model):
+    """The result is the records list of that execution's own collector."""
+    S = model.systems.systems
+    return ghost().n_built == 1 and collectors in S and same_obj(result, S[collectors].records)
+
+
+contract('Batching._run_model_for_batch', variant='collector',
+         params={'model_cls': 'any', 'kwargs': 'any', 'collectors': 'str', 'max_timesteps': 'int'},
+         returns='list[any]',
+         ensures={'C15': [run_batch_post_str]},
+         raises={'AttributeError': dict(when=None, modifies=['store:*'])},
+         implicit=['AttributeError'],
+         modifies=['ghost:n_built', 'fieldall:timestep', 'new:list[ref:System]', 'fieldall:_status',
+                   'store:dict[str,ref:Agent]', 'store:dict[cls,ref:Component]', 'store:dict[cls,list[ref:Component]]',
+                   'store:list[ref:Component]', 'fieldall:tag', 'ghost:runs', 'ghost:last'],
+         locals={'model': 'ref:Model'},
+         ghost_init='batch_init',
+         sites={0: dict(**{'assert': [site_build]}, effect='model_built'), 2: dict(**{'assert': [site_step]})},
+         loops={0: dict(invariant=[(run_batch_inv, ['C15'])], modifies=[
+             'fieldall:timestep', 'new:list[ref:System]', 'fieldall:_status', 'store:dict[str,ref:Agent]',
+             'store:dict[cls,ref:Component]', 'store:dict[cls,list[ref:Component]]', 'store:list[ref:Component]',
+             'fieldall:tag', 'ghost:runs', 'ghost:last'])},
+         assume_callee_pre=['Core.Model.execute'], native=False, props=['C15'])
+
+
+def run_abstract_post(model_cls, kwargs, collectors, max_timesteps, result):
+    """Callers' view of one execution (ghost log written by the effect `run_logged`)."""
+    return implies(is_none(collectors), is_none(result)) and implies(not is_none(collectors), not is_none(result))
+
+
+contract('Batching._run_model_for_batch', variant='batch',
+         params={'model_cls': 'any', 'kwargs': 'any', 'collectors': 'any', 'max_timesteps': 'int'}, returns='any',
+         ensures={'C15': [run_abstract_post]}, kind='abstract',
+         raises={'Exception': dict(when=None, modifies=['store:*'])},
+         modifies=[], effects='run_logged',
+         assumes=['one execution as seen by batch_run: returns None iff no collector was requested (its own body is '
+                  'verified under the variants nocollector / collector); a failing execution raises'])
+
+
+def batch_requires(model_cls, parameters, collectors, processes, max_timesteps, repetitions):
+    return repetitions >= 0
+
+
+def batch_serial_inv(collectors, old, i, skwargs_with_repetition, results):
+    """Executions 0 .. i-1 done, one log entry each, in product x repetition order; one result per execution."""
+    K = skwargs_with_repetition
+    return (0 <= i and i <= len(K) and ghost().n_runs == i and is_fresh(results, old)
+            and all(same(ghost().run_arg[j], K[j]) for j in range(0, i))
+            and implies(is_none(collectors), len(results) == 0)
+            and implies(not is_none(collectors),
+                        len(results) == i and all(same(results[j], ghost().run_res[j]) for j in range(0, i))))
+
+
+def batch_par_inv(collectors, old, i, skwargs_with_repetition, results, outs):
+    K = skwargs_with_repetition
+    return (0 <= i and i <= len(outs) and len(outs) == len(K) and is_fresh(results, old) and ghost().n_runs == len(K)
+            and all(same(ghost().run_arg[j], K[j]) for j in range(0, len(K)))
+            and implies(is_none(collectors), len(results) == 0)
+            and implies(not is_none(collectors), len(results) == i))
+
+
+def batch_post(model_cls, parameters, collectors, processes, max_timesteps, repetitions, result, old,
+               skwargs_with_repetition, simulation_kwargs):
+    """Every combination x repetition executed exactly once (ghost log), exactly one result per execution (none when
+    no collector is requested); with one process the results follow product x repetition order."""
+    K = skwargs_with_repetition
+    return (is_fresh(result, old) and ghost().n_runs == len(K)
+            and len(K) == (len(simulation_kwargs) * repetitions if repetitions > 0 else 0)
+            and all(same(ghost().run_arg[j], K[j]) for j in range(0, len(K)))
+            and implies(is_none(collectors), len(result) == 0)
+            and implies(not is_none(collectors), len(result) == len(K))
+            and implies(processes == 1 and not is_none(collectors),
+                        all(same(result[j], ghost().run_res[j]) for j in range(0, len(K)))))
+
+
+def bad_collectors(model_cls, parameters, collectors, processes, max_timesteps, repetitions, old):
+    return False
+
+
+BATCH_MODS = ['new:list[any]', 'new:list[list[tuple[str,any]]]', 'new:list[tuple[str,any]]', 'ghost:n_runs',
+              'ghost:run_arg', 'ghost:run_res', 'new:obj:Pool']
+
+contract('Batching.batch_run',
+         params={'model_cls': 'any', 'parameters': 'ref:ParameterList', 'collectors': 'any', 'processes': 'int',
+                 'max_timesteps': 'int', 'repetitions': 'int'},
+         returns='list[any]',
+         requires=[batch_requires],
+         ensures={'C15': [batch_post]},
+         raises={'Exception': dict(when=None, modifies=['store:*']),
+                 'AttributeError': dict(when=None, modifies=['store:*'])},
+         modifies=BATCH_MODS,
+         locals={'results': 'list[any]'},
+         ghost_init='batch_init', view='batch',
+         loops={0: dict(invariant=[(batch_serial_inv, ['C15'])], index='i', modifies=['results'] + BATCH_MODS),
+                1: dict(invariant=[(batch_par_inv, ['C15'])], index='i', iter_name='outs', modifies=['results'])},
+         cases=[dict(name='nocollector', params={'collectors': 'none'}), dict(name='collector', params={'collectors': 'str'})],
+         native=False, props=['C15'])
